@@ -252,17 +252,21 @@ UNITS['U04k'] = dict(
     assumptions=['shims: Column::new / IntegerColumn::create_col / DataSection record the choice instead of building a column'],
     not_covered=['lz4_or_pco_encode (A-lz4, A-pco)'])
 
-UNITS['U14k'] = dict(
-    kind='kani', crate='kani/U14', timeout_s=900, mem_gb=10, jobs=1,
-    title='BOUNDED (payload <= 2 bytes): disk_store/file_writer.rs compiled as is; VersionedChecksummedBlobWriter::{store,load} over an in-memory inner writer, digest replaced by a stand-in crate',
-    path_includes=['src/disk_store/file_writer.rs'],
-    harnesses=[dict(name='proofs::store_load_roundtrip', bounded='payload of 2 bytes, unwind 35', unwind=35, clause='load(store(d)) == d', fn='VersionedChecksummedBlobWriter::store/load'),
-               dict(name='proofs::load_len47_rejected', bounded='every 47-byte file, unwind 35', unwind=35, clause='shorter than the header ==> Err', fn='VersionedChecksummedBlobWriter::load'),
-               dict(name='proofs::load_len49', bounded='every 49-byte file, unwind 35', unwind=35, clause='Ok(p) ==> version 0, length field == |p|, payload bytes == p, file stays accepted', fn='VersionedChecksummedBlobWriter::load'),
+UNITS['U14b'] = dict(
+    kind='kani', crate='kani/U14',
+    title='A-bytes: u64/usize::{to,from}_be_bytes are an inverse pair (complete) - discharges the assumed spec of spec_be64 / spec_be64_decode used by U14v',
+    harnesses=[dict(name='proofs::be64_inverse_pair', clause='from_be_bytes(to_be_bytes(x)) == x and conversely, all values', fn='u64::{to,from}_be_bytes'),
                dict(name='proofs::vx_canary', expect_fail=True)],
-    assumptions=['A-sha: the sha2 crate is replaced by a stand-in crate with the same API (kani/U14/sha2_shim); no property of SHA-256 is used or proved',
-                 'format! on error paths stubbed (message text irrelevant)'],
-    not_covered=['FileBlobWriter (file system)', 'Cap\'n Proto encode/decode of segments and catalogue (A-capnp)'])
+    assumptions=[], not_covered=[])
+
+UNITS['U14v'] = dict(
+    kind='verus', tpl='contracts/U14v_file_writer.vx',
+    title='disk_store/file_writer.rs: VersionedChecksummedBlobWriter::{store, load} - a file is accepted iff it is exactly version | length | sha256(payload) | payload',
+    assumptions=['A-sha: SHA-256 is an uninterpreted function with 32-byte output (spec_sha256); "a bit-flipped checksum or payload is rejected" holds up to collisions of the real function',
+                 'A-bytes: big-endian conversions are an inverse pair (spec_be64 / spec_be64_decode, axiom_be64) - proved for the std functions by U14b',
+                 'R9: the inner writer is dropped (store returns the bytes handed to it, load takes the bytes it returned); error values lose their message text; slicing / extend / to_vec / slice comparison replaced by verified helpers',
+                 'usize is 64 bits'],
+    not_covered=['FileBlobWriter (file system)', 'Cap\'n Proto encode/decode of segments and catalogue (A-capnp)', 'partition_segment.rs / meta_store.rs (de)serialisation'])
 
 UNITS['U21k'] = dict(
     kind='kani', crate='kani/U21', timeout_s=900, mem_gb=20, jobs=2,
@@ -284,6 +288,11 @@ UNITS['U06k'] = dict(
     not_covered=['dictionary construction (fast_build_string_column)', 'LIKE / regex'])
 
 PROPS = {
+    'C14': dict(level='proof', units=['U14v', 'U14b'],
+                level_text='Verus proof that the envelope check accepts a file iff it is intact (for all byte strings: truncated, extended, flipped version / length / payload under A-sha), and that store writes exactly the envelope',
+                level_note='the Cap\'n Proto payload encode/decode (segments, catalogue) is not covered: the "decodes to exactly the logical content" half of C14 is decided for the envelope only',
+                technique='contract-based deductive verification (Verus; Kani complete for the byte-conversion assumption) of extracted functions',
+                assumptions=[], not_covered=['capnp encode/decode of WAL segments, partition segments and the catalogue', 'FileBlobWriter']),
     'C12': dict(level='other', units=['U13k', 'U21k'],
                 level_text='complete Kani proofs of the LIMIT/OFFSET row-window arithmetic (never more rows than LIMIT, no panic for any limit/offset/length); bounded Kani check that LIMIT/OFFSET literals give an error value instead of a panic',
                 level_note='narrow: sqlparser, convert_to_native_expr, result assembly (BatchResult::validate) and channel delivery are not covered',
